@@ -135,8 +135,24 @@ EXTRA3 = {
  "C18": "Exhaustive depth-2 enumeration (first creator parked at i, second runs k <= 40 decisions, first finishes, second finishes) for create x create+append.",
  "C19": "S3: one transient error on the read-back inside release(); no DELETE may remove a lock object that carries another contender's id and is younger than the lease.",
 }
+EXTRA4 = {
+ "C02": "On object storage the late fault is a transport error after the pointer PUT landed.",
+ "C04": "Two scenarios start from a base whose first manifest lists two files (partial deletes: the manifest is rewritten).",
+ "C05": "Unreferenced ALIASES (relative symlinks) of live data files / manifests are planted as orphans: the alias may go, its target must stay.",
+ "C06": "Exhaustive depth-2 enumeration for a slow committer (transaction parked at i <= 70, collector runs k <= 80 decisions, transaction commits, collector finishes).",
+ "C10": "Action second_loss_same_handle: a long-lived handle recovers, another handle commits, the pointer is lost again, the long-lived handle reads and appends.",
+ "C11": "Pre-built files declare an exact / 0 / 1 / 10^6 record count (never checked by the library): scans return the file's rows regardless.",
+ "C12": "The container type of in / not_in value sets is generated (list, tuple, set, generator, map, iter, dict keys, deque, range).",
+ "C13": "Every non-empty in / not_in filter of the exhaustive sub-domains also runs with a generator (scan) and an iterator (streaming API); random tables draw the container.",
+ "C14": "Read errors that are over after the first / first two attempts of an API call: raising or the complete answer are the only allowed outcomes.",
+ "C16": "After a failed fsync, fault-free commits through the same and a fresh handle are traced too and a non-durable later commit is reported apart from the known swallowed-directory-fsync finding.",
+ "C18": "Every case ends with a commit through a fresh handle once all actors returned (a lock nobody should hold any more must not block it).",
+ "C19": "S3: the process time zone is part of the scenario (EET-2 / PST8 / IST-5:30 / NZST-12); all actor orders for holder / lapse / takeover + release / is_held() probe.",
+}
 for _k, _v in EXTRA2.items():
     EXTRA[_k] = (EXTRA.get(_k, "") + " " + _v).strip()
+for _k, _v in EXTRA4.items():
+    EXTRA3[_k] = (EXTRA3.get(_k, "") + " " + _v).strip()
 for _k, _v in EXTRA3.items():
     EXTRA[_k] = (EXTRA.get(_k, "") + " " + _v).strip()
 for _k, _v in EXTRA.items():
